@@ -135,6 +135,8 @@ def sampling(tier, rng, rep):
         k = 4
         cs = (rng.uniform(-3, 3, k) + 1j * rng.uniform(-3, 3, k))
         rs = rng.uniform(0.1, 2.5, k)
+        if t % 2 == 0:      # a centre that is zero up to a rounding residue (cos(pi/2), a sum of roots of unity), or exactly zero
+            cs[0] = [np.cos(np.pi / 2) + 0j, 1e-13 * (1 + 1j), np.exp(1j * np.pi) + 1, 0j, 3e-15j, 1e-300 + 0j][(t // 2) % 6]
         disks = cp.CP1Disk(cs.copy(), rs.copy())
         inp = {"centres": [[c.real, c.imag] for c in cs], "radii": rs.tolist()}
 
